@@ -203,6 +203,90 @@ def data_cases(rnd, n=300):
             yield {"lines": L("START NOP", "%s %s %s" % (lbl, mn, opnd), " NOP"), "tag": "noemit", "meta": {"mn": mn, "opnd": opnd, "stmt": 1}}
 
 
+def equ_cases(rnd, n=120):
+    """EQUs defined by expressions: of constants, of other EQUs (chains, any definition order), of labels; definition
+    cycles; undefined symbols; names with '_' and '@'.  meta.uses = [(statement index, position, operand text)];
+    the oracle evaluates the texts with its own reference evaluator (props_asm.ref_eval)."""
+    NAMES = [["K", "E0", "E1", "E2", "E3"], ["K_1", "E_0", "E_1", "E_2", "E_3"], ["@K", "E@0", "E@1", "_E2", "E3_"]]
+    for _ in range(n):
+        nm = rnd.choice(NAMES) if rnd.random() < 0.6 else NAMES[0]
+        depth = rnd.choice([1, 1, 2, 2, 3, 4])
+        kval = rnd.choice(["5", "$10", "$0100", "300", "-5", "-200", "0", "255", "$7FFF", "%00001111", "'A"])
+        defs = ["%s EQU %s" % (nm[0], kval)]
+        lit = lambda: rnd.choice(["0", "1", "2", "3", "$10", "$FF", "$100", "255", "256", "1000", "$7FFF"])      # noqa: E731
+        op = lambda: rnd.choice("++--**/")                                                                         # noqa: E731
+        for d in range(depth):
+            me = nm[1 + d]
+            prev = nm[d] if d > 0 else nm[0]
+            kind = rnd.randrange(5)
+            if d == 0 and kind == 0:
+                e = lit() + op() + lit()
+            elif kind == 1:
+                e = lit() + op() + prev
+            elif kind == 2:
+                e = prev + op() + nm[0]
+            elif kind == 3 and d > 0:
+                e = prev + op() + nm[rnd.randrange(1, d + 1)]
+            else:
+                e = prev + op() + lit()
+            defs.append("%s EQU %s" % (me, e))
+        last = nm[depth]
+        uses = rnd.sample([("LDX", "imm", "#" + last), ("LDA", "mem", last), ("LDD", "extind", "[" + last + "]"), ("LDA", "idx", last + ",X"),
+                           ("FDB", "fdb", last), ("LDX", "imm", "#" + last + "+1"), ("LDD", "imm", "#2*" + last), ("LDU", "mem", last + "-" + nm[0]),
+                           ("LEAX", "idx", last + ",Y"), ("CMPX", "imm", "#" + nm[1])], rnd.choice([1, 2, 3]))
+        body = [" %s %s" % (mn, t) for mn, _, t in uses]
+        order = rnd.randrange(3)
+        rnd.shuffle(defs) if rnd.random() < 0.5 else None
+        if order == 0:
+            lines = defs + body
+            base = len(defs)
+        elif order == 1:
+            lines = body + defs
+            base = 0
+        else:
+            cut = rnd.randrange(len(defs) + 1)
+            lines = defs[:cut] + body + defs[cut:]
+            base = cut
+        if rnd.random() < 0.5:
+            lines = [" ORG $0E00"] + lines
+            base += 1
+        yield {"lines": L(*lines), "tag": "equ-chain", "meta": {"uses": [(base + i, pos, t.lstrip("#").strip("[]").split(",")[0]) for i, (mn, pos, t) in enumerate(uses)]}}
+    # labels in EQU expressions: the symbol has the value of the expression; definition order does not matter
+    for org in ("", " ORG $1000", " ORG $FF00"):
+        for late in (False, True):
+            for e in ("L+1", "L-1", "1+L", "L*2", "L/2", "M-L", "L+M", "L-300"):
+                d = ["T EQU " + e]
+                body = ["L NOP", " RMB 7", "M NOP"]
+                lines = ([org] if org else []) + (body + d if late else d + body)
+                yield {"lines": L(*lines), "tag": "equ-label", "meta": {"uses": []}}
+    # cycles, self reference, undefined symbols: a diagnostic, whatever the order
+    for lines in (["A EQU B+1", "B EQU A+1", " LDX #A"], ["A EQU B+1", "B EQU A+1", " NOP"], [" LDX #A", "B EQU A+1", "A EQU B+1"], ["A EQU A+1", " NOP"],
+                  ["A EQU A+1", " LDA #A"], ["A EQU B+1", "B EQU C+1", "C EQU A*2", " FDB B"], ["A EQU Q+1", " NOP"], ["A EQU 1+Q", " LDA A"],
+                  ["A EQU 1/0", " NOP"], ["Z EQU 0", "A EQU 5/Z", " NOP"], ["A EQU $FFFF+1", " NOP"], ["A EQU $FFFF*2", " LDX #A"], ["A EQU 0-32769", " NOP"]):
+        yield {"lines": L(*lines), "tag": "equ-bad", "meta": {"uses": [], "reject": True}}
+    for lines in (["A EQU 0-32768", " LDX #A"], ["A EQU 0-1", " FCB A", " FDB A"], ["A_B EQU 3", "C@D EQU A_B*2", "_X LDA #C@D", " LDB #A_B+1", " JMP _X"],
+                  ["A EQU B", "B EQU 5", " LDA #A"]):
+        yield {"lines": L(*lines), "tag": "equ-misc", "meta": {"uses": []}}
+
+
+def fcc_cases(rnd, n=200):
+    """FCC strings taken from the line as written: any delimiter, blanks / tabs / ';' / any printable character inside, and
+    whatever follows the closing delimiter (comment with or without ';', further delimiter characters)"""
+    PRINT = "".join(chr(c) for c in range(0x20, 0x7F))
+    for _ in range(n):
+        d = rnd.choice("\"'/|!.#$%&*+,-:<=>?@^_`~()[]{}Zq9")
+        ln = rnd.choice([0, 1, 1, 2, 3, 5, 11, 40, 255])
+        body = "".join(rnd.choice(PRINT if rnd.random() < 0.6 else "ab ;  ,\t;;' \"") for _ in range(ln))
+        body = body.replace(d, "x")
+        tail = rnd.choice(["", "", " comment", " ; c", ";c", "  ;; two", "\t; tab", " trailing 'quote' \"q\"", " ;" + d + "again" + d, " " + d, "   "])
+        lab = rnd.choice(["MSG", "", "M_1", "@S"])
+        ws = rnd.choice([" ", "  ", "\t", " \t "])
+        mn = rnd.choice(["FCC", "FCC", "fcc", "Fcc"])
+        yield {"lines": L("%s%s%s%s%s%s%s%s" % (lab, ws, mn, ws, d, body, d, tail), " NOP"), "tag": "fcc", "meta": {"mn": "FCC", "s": body, "d": d, "stmt": 0, "tail": tail}}
+    for line in ("MSG FCC", "MSG FCC ", "MSG FCC \"", "MSG FCC \"abc", "MSG FCC abc", "MSG FCC a", " FCC 'it''s'", " FCC ;a;", " FCC ; x ;"):
+        yield {"lines": L(line, " NOP"), "tag": "fcc-odd", "meta": {"mn": "FCCODD", "stmt": 0}}
+
+
 def branch_sweep(rnd, thorough=False):
     """short/long branches and label,PCR operands at distances around the limits (C03, C13)"""
     D8 = [0, 1, 100, 124, 125, 126, 127, 128, 129, 130, 131, 200]
